@@ -23,15 +23,17 @@ import (
 
 // Op is one KV call. Byte strings are hex so that the case is exact.
 type Op struct {
-	Op   string `json:"op"`
-	K    string `json:"k,omitempty"`
-	C    string `json:"c,omitempty"`
-	V    string `json:"v,omitempty"`
-	Nil  bool   `json:"nil,omitempty"` // the []byte argument is nil
-	M    string `json:"m,omitempty"`   // mutate callback: ok | error | cancel | incr
-	Off  uint64 `json:"off,omitempty"`
-	N    uint64 `json:"n,omitempty"`
-	Desc bool   `json:"desc,omitempty"`
+	Op      string  `json:"op"`
+	K       string  `json:"k,omitempty"`
+	C       string  `json:"c,omitempty"`
+	V       string  `json:"v,omitempty"`
+	Nil     bool    `json:"nil,omitempty"`     // the []byte argument is nil
+	M       string  `json:"m,omitempty"`       // mutate callback: ok | error | cancel | incr
+	Stop    *string `json:"stop,omitempty"`    // walks: Do stops at the first entry with this value (hex) ...
+	StopErr string  `json:"stoperr,omitempty"` // ... returning ErrCancel ("cancel") or a user error ("user")
+	Off     uint64  `json:"off,omitempty"`
+	N       uint64  `json:"n,omitempty"`
+	Desc    bool    `json:"desc,omitempty"`
 }
 
 // Res is the projected result of one call.
@@ -132,11 +134,17 @@ func bytesArg(op *Op) []byte {
 	return b
 }
 
-func walkIter(acc *[][2]string) *pisces.Iter {
+func walkIter(op *Op, acc *[][2]string) *pisces.Iter {
 	return &pisces.Iter{
 		Make: func() interface{} { return new(json.RawMessage) },
 		Do: func(cls string, v interface{}) error {
 			raw := v.(*json.RawMessage)
+			if op.Stop != nil && hx2([]byte(*raw)) == *op.Stop {
+				if op.StopErr == "cancel" {
+					return pisces.ErrCancel
+				}
+				return errUser
+			}
 			*acc = append(*acc, [2]string{hx2([]byte(cls)), hx2([]byte(*raw))})
 			return nil
 		},
@@ -221,16 +229,16 @@ func apply(kv *pisces.KV, op *Op) (res Res) {
 		err = kv.Clear()
 	case "walk":
 		res.W = [][2]string{}
-		err = kv.Walk(walkIter(&res.W))
+		err = kv.Walk(walkIter(op, &res.W))
 	case "walkclass":
 		res.W = [][2]string{}
-		err = kv.WalkClass(c, walkIter(&res.W))
+		err = kv.WalkClass(c, walkIter(op, &res.W))
 	case "walkpartial":
 		res.W = [][2]string{}
-		err = kv.WalkPartial(&pisces.KVPartial{Offset: op.Off, N: op.N, Desc: op.Desc}, walkIter(&res.W))
+		err = kv.WalkPartial(&pisces.KVPartial{Offset: op.Off, N: op.N, Desc: op.Desc}, walkIter(op, &res.W))
 	case "walkpartialclass":
 		res.W = [][2]string{}
-		err = kv.WalkPartialClass(c, &pisces.KVPartial{Offset: op.Off, N: op.N, Desc: op.Desc}, walkIter(&res.W))
+		err = kv.WalkPartialClass(c, &pisces.KVPartial{Offset: op.Off, N: op.N, Desc: op.Desc}, walkIter(op, &res.W))
 	default:
 		panic("unknown op " + op.Op)
 	}
@@ -394,6 +402,15 @@ func pick(r *hx.Rng, p []string) string { return p[r.Intn(len(p))] }
 
 var windows = []uint64{0, 0, 1, 1, 2, 3, 4, 5, 7, 1<<63 - 1, 1 << 62}
 
+func withStop(r *hx.Rng, o Op) Op {
+	if r.Intn(3) == 0 {
+		v := hx2([]byte(pick(r, jsonPool)))
+		o.Stop = &v
+		o.StopErr = []string{"cancel", "user"}[r.Intn(2)]
+	}
+	return o
+}
+
 func genOp(r *hx.Rng) Op {
 	k := hx2([]byte(randKey(r)))
 	c := hx2([]byte(pick(r, classPool)))
@@ -444,17 +461,19 @@ func genOp(r *hx.Rng) Op {
 		}
 		return Op{Op: "count"}
 	case 27, 28:
-		return Op{Op: "walk"}
+		return withStop(r, Op{Op: "walk"})
 	case 29:
-		return Op{Op: "walkclass", C: c}
+		return withStop(r, Op{Op: "walkclass", C: c})
 	case 30, 31:
-		return Op{Op: "walkpartial", Off: hx.PickU64(r, windows), N: hx.PickU64(r, windows), Desc: r.Bool()}
+		return withStop(r, Op{Op: "walkpartial", Off: hx.PickU64(r, windows), N: hx.PickU64(r, windows), Desc: r.Bool()})
 	default:
-		return Op{Op: "walkpartialclass", C: c, Off: hx.PickU64(r, windows), N: hx.PickU64(r, windows), Desc: r.Bool()}
+		return withStop(r, Op{Op: "walkpartialclass", C: c, Off: hx.PickU64(r, windows), N: hx.PickU64(r, windows), Desc: r.Bool()})
 	}
 }
 
 func h(s string) string { return hx2([]byte(s)) }
+
+func strp(s string) *string { return &s }
 
 // corpus: the histories on which the backends were seen to disagree, and the
 // edges of the statement; always run first.
@@ -482,6 +501,9 @@ func corpus() [][]Op {
 		{{Op: "add", K: k, V: h("1")}, {Op: "append", K: k, V: h("x")}, {Op: "add", K: h("a"), V: h("2")}, {Op: "walk"},
 			{Op: "mutate", K: k, M: "ok", V: h("4")}, {Op: "get", K: k}},
 		{{Op: "add", K: h(""), V: h("1")}, {Op: "get", K: h("")}, {Op: "clear"}, {Op: "count"}, {Op: "has", K: h("")}},
+		{{Op: "add", K: h("a"), V: h("1")}, {Op: "add", K: h("b"), V: h("7")}, {Op: "add", K: h("c"), V: h("3")},
+			{Op: "walk", Stop: strp(h("7")), StopErr: "cancel"}, {Op: "walk", Stop: strp(h("7")), StopErr: "user"},
+			{Op: "walkpartial", Off: 0, N: 3, Desc: true, Stop: strp(h("1")), StopErr: "cancel"}, {Op: "walk"}},
 	}
 }
 
